@@ -4,6 +4,7 @@ Spec/Literals.lean is written from C11 §6.4.4.1 (+ the extensions the property 
 theorems say what the lexer model does with every constant of that grammar.
 -/
 import NormModel.Proofs.LiteralsLex
+import NormModel.Proofs.CharString
 namespace Norm.C11
 open Norm Spec
 
@@ -90,6 +91,45 @@ theorem int_valid (u : Uni) (k : IntConst) (hk : k.WF) (rest : List Char) (hb : 
     ?_, rfl, rfl, rfl, rfl, p2, p3⟩
   unfold trySubLexers
   rw [hpf, hpi]
+
+/-- **A character constant `pre ' c '`** (pre ∈ {"", L, u, U, u8}; c any character other than the
+quote, the backslash, newline and tab) **becomes one CHAR_CONST token spanning exactly the
+constant, with no lexical diagnostic**, at any position, whatever follows. -/
+theorem char_valid (u : Uni) (pre : String) (hp : pre ∈ litPrefixes) (c : Char)
+    (hc : c ≠ '\'' ∧ c ≠ '\\' ∧ c ≠ '\n' ∧ c ≠ '\t') (rest : List Char) (s : LexSt)
+    (hr : s.rest = pre.toList ++ '\'' :: c :: '\'' :: rest) :
+    ∃ s' t, trySubLexers u s = .ok (some (s', t)) ∧ t.type = "CHAR_CONST" ∧
+      t.value = some (String.ofList (pre.toList ++ ['\'', c, '\''])) ∧ t.line = s.line ∧ t.col = s.col ∧
+      s'.rest = rest ∧ s'.diags = s.diags :=
+  Norm.char_valid u pre hp c hc rest s hr
+
+/-- … and likewise when the character is a simple escape sequence (`\n \t \\ \' \" \? \a \b \e \f \r \v`). -/
+theorem char_escape_valid (u : Uni) (pre : String) (hp : pre ∈ litPrefixes) (e : Char)
+    (he : simpleEscapes.contains e = true) (rest : List Char) (s : LexSt)
+    (hr : s.rest = pre.toList ++ '\'' :: '\\' :: e :: '\'' :: rest) :
+    ∃ s' t, trySubLexers u s = .ok (some (s', t)) ∧ t.type = "CHAR_CONST" ∧
+      t.value = some (String.ofList (pre.toList ++ ['\'', '\\', e, '\''])) ∧ t.line = s.line ∧ t.col = s.col ∧
+      s'.rest = rest ∧ s'.diags = s.diags :=
+  Norm.char_escape_valid u pre hp e he rest s hr
+
+/-- **A string literal `pre " body "`** whose body (of any length) consists of characters other than
+the quote, the backslash, newline, tab and the digraph/trigraph starters **becomes one STRING
+token spanning exactly the literal, with no lexical diagnostic**, at any position, whatever follows. -/
+theorem string_valid (u : Uni) (pre : String) (hp : pre ∈ litPrefixes) (body : List Char)
+    (hb : ∀ c ∈ body, OpaqueChar c ∧ c ≠ '"') (rest : List Char) (s : LexSt)
+    (hr : s.rest = pre.toList ++ '"' :: (body ++ '"' :: rest)) :
+    ∃ s' t, trySubLexers u s = .ok (some (s', t)) ∧ t.type = "STRING" ∧
+      t.value = some (String.ofList (pre.toList ++ '"' :: (body ++ ['"']))) ∧ t.line = s.line ∧ t.col = s.col ∧
+      s'.rest = rest ∧ s'.diags = s.diags :=
+  Norm.string_valid u pre hp body hb rest s hr
+
+/-- Non-vacuity: `L'x'`, `'\n'`, `u8"hi there"`. -/
+example : ("L" ∈ litPrefixes) ∧ ("u8" ∈ litPrefixes) ∧ simpleEscapes.contains 'n' = true ∧
+    (∀ c ∈ "hi there".toList, OpaqueChar c ∧ c ≠ '"') := by
+  refine ⟨by decide, by decide, by decide, ?_⟩
+  intro c hc
+  simp at hc
+  rcases hc with rfl | rfl | rfl | rfl | rfl | rfl | rfl | rfl <;> (unfold OpaqueChar plainChar; decide)
 
 /-- Non-vacuity and the former defect: `0xb3ba`, binary, octal zero, all-caps suffix. -/
 example : IntConst.WF ⟨.hex 'x', "b3ba".toList, "UL"⟩ ∧ IntConst.WF ⟨.bin 'B', "101".toList, ""⟩ ∧
